@@ -107,6 +107,15 @@ func (m *Model) ruleDSN(r *Results) {
 					}
 					return
 				}
+				if k == "cache" {
+					// SQLite's shared-cache mode replaces WAL snapshot isolation between the pool's
+					// connections by table-level locks: a read outside a transaction that overlaps a
+					// write transaction fails with "table is locked" instead of seeing the last commit
+					if v, isC := constString(c.Common().Args[2]); !isC || v != "private" {
+						r.bad(rule, m.declName(fn)+" / connections do not share a page cache", m.instrPos(c), "the connection string sets cache=%q: with a shared cache the pooled connections lock tables against one another, and the lock-free reads of the key-value API fail (or Update gives up) whenever they overlap another goroutine's write transaction", v)
+					}
+					return
+				}
 				if !strings.HasPrefix(k, "_") {
 					return
 				}
@@ -577,6 +586,20 @@ func (m *Model) ruleEXPSQL(r *Results) {
 					skip = m.pos(b.Instrs[0].Pos())
 				}
 			}
+			// ... and the collection it sweeps is the one the database has under that name now: the
+			// sweep runs on the bucket's shared instance, whose cache of collections no handle keeps
+			// current (a collection dropped and re-created through a handle has a new id), so the
+			// lookup it uses must go to the collections table on every path
+			if len(cl.Common().Args) > 0 {
+				if ex, ok := stripConv(cl.Common().Args[0]).(*ssa.Extract); ok {
+					if lc, ok := ex.Tuple.(*ssa.Call); ok {
+						if g := lc.Common().StaticCallee(); g != nil && m.inPkg(g) && len(g.Blocks) > 0 {
+							bad := m.returnsWithoutCollectionsQuery(g, 0)
+							r.check(bad == "", rule, m.declName(cb.Parent())+" / the sweep looks its collections up in the database", m.instrPos(lc), "every successful return of the lookup lies behind a query of the collections table", "the sweep takes the collection from "+g.Name()+", which can answer (at "+bad+") without asking the collections table, i.e. from the handle's cache: after a collection was dropped and re-created through another handle the sweep keeps scanning the old id - the documents of the new incarnation never expire and the timer re-arms for them for ever")
+						}
+					}
+				}
+			}
 			r.check(skip == "", rule, m.declName(cb.Parent())+" / the sweep visits every collection", m.instrPos(cl), "the loop over the collections cannot go on to the next one without sweeping the current one (errors leave the loop)", "the loop that sweeps the collections for expired documents can go on to the next collection without sweeping the current one: documents of a skipped collection stay readable past their expiry, and the timer keeps firing for them")
 		}
 		// Go side: the list of keys to delete is made of the rows of this scan only - it starts
@@ -981,4 +1004,61 @@ func (m *Model) markOutsideAllocator(r *Results, rule string, s *SQLSite, via ss
 		monotone := e.Kind == sqlp.EFunc && strings.EqualFold(e.Name, "max") && len(e.Args) == 2 && (isCol(e.Args[0], "lastCas") || isCol(e.Args[1], "lastCas"))
 		r.check(monotone, rule, "mark outside the allocator / "+m.declName(where)+" / "+st.Shape(), pos, "a mark written with a CAS that is not the allocator's only ever raises it (max)", "the persisted high-water mark is overwritten, outside the CAS allocator, with a CAS that need not be the largest handed out: the mark can move backwards and a reopened bucket can hand out a CAS twice")
 	}
+}
+
+// returnsWithoutCollectionsQuery: a return of g that may report success and that is reachable
+// without passing a call that (transitively) reads the collections table; "" if there is none.
+// A function that only forwards to another one is judged by that one.
+func (m *Model) returnsWithoutCollectionsQuery(g *ssa.Function, depth int) string {
+	queryFns := map[*ssa.Function]bool{}
+	m.eachStmt(false, func(s *SQLSite, v *Variant, st *sqlp.Stmt) {
+		if st.Kind != sqlp.SSelect {
+			return
+		}
+		for _, t := range st.Tables() {
+			if t == "collections" {
+				queryFns[s.Fn] = true
+			}
+		}
+	})
+	var through []*ssa.BasicBlock
+	var forwards []*ssa.Function
+	m.eachCall(g, func(c ssa.CallInstruction) {
+		f := c.Common().StaticCallee()
+		if f == nil || !m.inPkg(f) {
+			return
+		}
+		hit := queryFns[f]
+		for h := range m.reachableLocal(f) {
+			if queryFns[h] {
+				hit = true
+			}
+		}
+		if hit {
+			through = append(through, c.Block())
+			forwards = append(forwards, f)
+		}
+	})
+	if queryFns[g] {
+		for _, s := range m.Sites {
+			if s.Fn == g {
+				through = append(through, s.Call.Block())
+			}
+		}
+	}
+	c := newCut()
+	for _, b := range through {
+		c.cutBlock(b)
+	}
+	reach := entryReach(g, c)
+	for _, ret := range returnsOf(g) {
+		if reach[ret.Block().Index] && !m.returnFails(ret, 0) {
+			return m.instrPos(ret)
+		}
+	}
+	// a pure forwarder (`return bucket.getOrCreate(name, false)`): what it forwards to decides
+	if len(g.Blocks) == 1 && len(forwards) == 1 && depth < 2 {
+		return m.returnsWithoutCollectionsQuery(forwards[0], depth+1)
+	}
+	return ""
 }
